@@ -859,17 +859,27 @@ func (m *MutableOverlayWorld) AddFeature(f Feature) error {
 
 	existing := (*m.features)[f.FeatureID()]
 	references := allReferences(f, m)
-	if existing != nil {
+	if existing != nil || m.base.HasFeatureWithID(f.FeatureID()) {
+		// The feature is being replaced, whether it currently lives in the
+		// overlay or only in the base, so features that reference it need to
+		// remain valid.
+		restore := func() {
+			if existing != nil {
+				(*m.features)[f.FeatureID()] = existing
+			} else {
+				delete(*m.features, f.FeatureID())
+			}
+		}
 		(*m.features)[f.FeatureID()] = f
 
 		for _, reference := range references {
 			if err := ValidateFeature(NewFeatureFromWorld(reference), &ValidateOptions{InvertClockwisePaths: false}, m); err != nil {
-				(*m.features)[f.FeatureID()] = existing
+				restore()
 				return err
 			}
 		}
 
-		(*m.features)[f.FeatureID()] = existing
+		restore()
 	}
 
 	modified := NewModifiedFeaturesWithCopies(f, references, m.features, m)
